@@ -56,6 +56,7 @@ type scenario struct {
 	Routes []M      `json:"routes"`
 	Ops    []M      `json:"ops"`
 	GiveUp int      `json:"giveup_ms"`
+	Refuse []int    `json:"refuse"` // ordinals (1-based, per scenario) of the resolution requests the link refuses to transmit
 }
 
 func addrOf(s string) tcpip.Address {
@@ -136,6 +137,9 @@ func (r *runner) log(ev M) {
 // tap: decode one emitted frame with the harness's own decoder
 func (r *runner) onEmit(l *wire.Link, f wire.Frame) {
 	ev := M{"ev": "emit", "cls": "other", "rmac": dots([]byte(f.Remote)), "len": len(f.Bytes)}
+	if f.Refused {
+		ev["refused"] = true
+	}
 	hop := dots([]byte(f.NextHop))
 	var src, dst, payload []byte
 	var proto uint8
@@ -551,6 +555,26 @@ func newRunner(si int, sc scenario) *runner {
 	}
 	r := &runner{si: si, sc: sc, h: h, clock: clock, nreq: map[string]int{}, syn: map[int]chan struct{}{}, bg: map[int]chan struct{}{}}
 	h.Links[1].OnEmit = r.onEmit
+	if len(sc.Refuse) > 0 {
+		nreq := 0
+		var rmu sync.Mutex
+		h.Links[1].Refuse = func(l *wire.Link, f wire.Frame) *tcpip.Error {
+			isReq := (f.Proto == wire.ProtoARP && len(f.Bytes) >= 8 && f.Bytes[7] == 1) ||
+				(f.Proto == wire.ProtoIPv6 && len(f.Bytes) >= 41 && f.Bytes[6] == 58 && f.Bytes[40] == 135)
+			if !isReq {
+				return nil
+			}
+			rmu.Lock()
+			defer rmu.Unlock()
+			nreq++
+			for _, k := range sc.Refuse {
+				if k == nreq {
+					return tcpip.ErrWouldBlock
+				}
+			}
+			return nil
+		}
+	}
 	return r
 }
 
